@@ -239,9 +239,17 @@ pub fn witness_fails(runner: &mut Runner, f: &Finding) -> Option<bool> {
     }
     let end = w.get("expect_end").and_then(|e| e.as_str()).unwrap_or("ok");
     let want_kind = w.get("expect_kind").and_then(|e| e.as_str());
+    // optional: the line numbers of the trace entries, innermost first
+    let want_lines: Option<Vec<u64>> = w.get("expect_trace_lines").and_then(|e| e.as_array()).map(|a| a.iter().filter_map(|x| x.as_u64()).collect());
     let ok = match &last.outcome {
         proto::Outcome::Ok => end == "ok",
-        proto::Outcome::Err { messages, kind } => end != "ok" && messages.get(0).map(|m| m.starts_with(end)).unwrap_or(false) && want_kind.map(|k| k == kind).unwrap_or(true),
+        proto::Outcome::Err { messages, kind } => {
+            let lines: Vec<u64> = messages
+                .iter()
+                .filter_map(|m| m.split(", line ").nth(1).and_then(|r| r.split(']').next()).and_then(|n| n.parse().ok()))
+                .collect();
+            end != "ok" && messages.get(0).map(|m| m.starts_with(end)).unwrap_or(false) && want_kind.map(|k| k == kind).unwrap_or(true) && want_lines.map(|w| w == lines).unwrap_or(true)
+        }
         proto::Outcome::Panic { .. } => false,
     };
     Some(!ok)
